@@ -84,7 +84,8 @@ Apply(tx, w0) ==
                            !.wait = [u \in Accts |-> [i \in 1..MaxBatch |-> NoWait]], !.legacy = <<>>])
          ELSE EnvResult(DecLe(tx.rate, One), w0,
                 [w0 EXCEPT !.disp = [owner |-> tx.sender, nominee |-> tx.sender, hub |-> "hub", reward |-> "reward",
-                                     stDenom |-> "usei", bDenom |-> "kusd", keeper |-> "keeper", rate |-> tx.rate,
+                                     stDenom |-> IF "stdenom" \in DOMAIN tx THEN tx.stdenom ELSE "usei",     \* (instantiate does not validate it)
+                                     bDenom |-> "kusd", keeper |-> "keeper", rate |-> tx.rate,
                                      swap |-> "swap", swapDenoms |-> <<"usei", "kusd", "ufor">>, oracle |-> "oracle"]])
     [] tx.k = "probe"     -> LET r == Tx(w0, tx.tx.sender, tx.tx.c, tx.tx.msg, tx.tx.funds)        \* dry run: outcome observed, nothing committed
                              IN [ok |-> r.ok, err |-> r.err, w |-> w0, fx |-> r.fx]
